@@ -151,15 +151,15 @@ class Arena:
         self._saved = tempfile.tempdir
         tempfile.tempdir = self.tmp
 
-    def reset(self, target_state, ext):
+    def reset(self, target_state, ext, stem="doc"):
         shutil.rmtree(self.out, ignore_errors=True)
         for n in os.listdir(self.tmp):
             shutil.rmtree(os.path.join(self.tmp, n), ignore_errors=True)
         os.makedirs(self.out)
         if target_state == "nested":
-            target = os.path.join(self.out, "a", "b", "doc." + ext)
+            target = os.path.join(self.out, "a", "b", stem + "." + ext)
         else:
-            target = os.path.join(self.out, "doc." + ext)
+            target = os.path.join(self.out, stem + "." + ext)
         if target_state in ("present", "present_resources"):
             with open(target, "wb") as f:
                 f.write(b"OLD CONTENT")
@@ -271,13 +271,22 @@ def judge(ctx, case, arena, target, before, raised, tap, stub, exporter, events,
         bad(f"export returned but also changed: {sorted(extra)[:4]}")
 
 
-def run_one(ctx, env, exporter, docname, target_state, k=None, stub_mode="ok", label=""):
+# file names a user may ask for: characters that are special to glob/fnmatch/regex/shell, several dots,
+# blanks, non-ASCII - the export must land at exactly that name
+STEMS = ["doc", "table[1]", "listing [a-c]", "re*port", "a?b", "out put", "t.1.2", "tab\u00e9", "-x", "{a,b}",
+         "x[!y]", "50%", "a'b"]
+
+
+def run_one(ctx, env, exporter, docname, target_state, k=None, stub_mode="ok", label="", stem="doc"):
     arena, inj, trace, tap, docs = env
     ext = {"rtf": "rtf", "docx": "docx", "html": "html", "pdf": "pdf"}[exporter]
-    target = arena.reset(target_state, ext)
+    target = arena.reset(target_state, ext, stem)
     before = snapshot(arena.out)
     stub = make_stub(stub_mode, arena) if exporter != "rtf" else None
     case = {"exporter": exporter, "doc": docname, "target": target_state, "k": k, "stub": stub_mode}
+    if stem != "doc":
+        case["stem"] = stem
+        ctx.distinct("target_file_names", stem)
     tap.last = None
     trace.start()
     raised = None
@@ -367,7 +376,17 @@ def run_shard(desc, ctx):
                             if t == "present_resources" and e != "html":
                                 continue
                             ctx.count("stub_runs")
-                            run_one(ctx, env, e, rng.choice(["col_a", "plain3", "figure"]), t, stub_mode=m)
+                            run_one(ctx, env, e, rng.choice(["col_a", "plain3", "figure"]), t, stub_mode=m,
+                                    stem=rng.choice(STEMS))
+                # every hostile file name with the exporter that has the most path handling
+                for stem in STEMS:
+                    for t in ("absent", "present_resources"):
+                        ctx.count("stub_runs")
+                        run_one(ctx, env, "html", rng.choice(["col_a", "plain3"]), t, stub_mode="html_resources",
+                                stem=stem)
+                    ctx.count("stub_runs")
+                    run_one(ctx, env, rng.choice(["docx", "pdf"]), "col_a", rng.choice(targets), stub_mode="ok",
+                            stem=stem)
                 # the real LibreOfficeConverter driving a fake soffice executable
                 for e in ("docx", "pdf", "html"):
                     for m in ("real:ok", "real:fail_before", "real:fail_after", "real:no_output",
@@ -377,7 +396,8 @@ def run_shard(desc, ctx):
                         for t in ("absent", "present", "nested"):
                             ctx.count("stub_runs")
                             ctx.count("real_converter_runs")
-                            run_one(ctx, env, e, rng.choice(["col_a", "plain3"]), t, stub_mode=m)
+                            run_one(ctx, env, e, rng.choice(["col_a", "plain3"]), t, stub_mode=m,
+                                    stem=rng.choice(STEMS))
                 # encode failure inside each exporter (document that raises ValueError)
                 for e in EXPORTERS:
                     for t in ("absent", "present", "nested"):
@@ -387,7 +407,7 @@ def run_shard(desc, ctx):
                 # write_rtf: plain success incl. missing parent directories
                 for t in ("absent", "present", "nested"):
                     ctx.count("stub_runs")
-                    run_one(ctx, env, "rtf", rng.choice(["col_a", "multi_a", "figure"]), t)
+                    run_one(ctx, env, "rtf", rng.choice(["col_a", "multi_a", "figure"]), t, stem=rng.choice(STEMS))
     finally:
         close_env(env)
 
@@ -396,6 +416,7 @@ def replay(data, ctx):
     env = make_env()
     try:
         c = data["case"]
-        run_one(ctx, env, c["exporter"], c["doc"], c["target"], k=c.get("k"), stub_mode=c.get("stub", "ok"))
+        run_one(ctx, env, c["exporter"], c["doc"], c["target"], k=c.get("k"), stub_mode=c.get("stub", "ok"),
+                stem=c.get("stem", "doc"))
     finally:
         close_env(env)
